@@ -2,10 +2,11 @@ package main
 
 import (
 	"fmt"
-	"hash/fnv"
 	"sort"
+	"strconv"
 	"strings"
 	"sync"
+	"unsafe"
 )
 
 // Sort of an SMT term.
@@ -31,10 +32,10 @@ type Term struct {
 	uf   bool    // contains an uninterpreted function application
 }
 
-const termShards = 256
+const termShards = 4096
 
 type termShard struct {
-	mu sync.Mutex
+	mu sync.RWMutex
 	m  map[string]*Term
 }
 
@@ -47,35 +48,36 @@ func init() {
 }
 
 func intern(t *Term) *Term {
-	var sb strings.Builder
-	sb.WriteString(t.Op)
-	sb.WriteByte('|')
+	buf := make([]byte, 0, 32+8*len(t.Args))
+	buf = append(buf, t.Op...)
+	buf = append(buf, '|')
 	switch t.Op {
 	case "var", "uf":
-		sb.WriteString(t.Name)
-		sb.WriteByte('#')
-		sb.WriteByte(byte('0' + t.Sort))
+		buf = append(buf, t.Name...)
+		buf = append(buf, '#', byte('0'+t.Sort))
 	case "cs":
-		sb.WriteString(fmt.Sprintf("%q", t.S))
+		buf = strconv.AppendQuote(buf, t.S)
 	case "ci":
-		sb.WriteString(fmt.Sprint(t.I))
+		buf = strconv.AppendInt(buf, t.I, 10)
 	case "cb":
-		sb.WriteString(fmt.Sprint(t.B))
+		buf = strconv.AppendBool(buf, t.B)
 	}
+	var h uint32 = 2166136261
 	for _, a := range t.Args {
-		sb.WriteByte('(')
-		sb.WriteString(fmt.Sprintf("%p", a))
-		sb.WriteByte(')')
+		p := uint64(uintptr(unsafe.Pointer(a)))
+		buf = append(buf, '(', byte(p), byte(p>>8), byte(p>>16), byte(p>>24), byte(p>>32), byte(p>>40), byte(p>>48), byte(p>>56))
 	}
-	t.key = sb.String()
-	h := fnv.New32a()
-	h.Write([]byte(t.key))
-	sh := &termTab[h.Sum32()%termShards]
-	sh.mu.Lock()
-	defer sh.mu.Unlock()
-	if e, ok := sh.m[t.key]; ok {
+	for _, c := range buf {
+		h = (h ^ uint32(c)) * 16777619
+	}
+	sh := &termTab[h%termShards]
+	sh.mu.RLock()
+	e, ok := sh.m[string(buf)]
+	sh.mu.RUnlock()
+	if ok {
 		return e
 	}
+	t.key = string(buf)
 	t.uf = t.Op == "uf"
 	for _, a := range t.Args {
 		if a.uf {
@@ -99,6 +101,11 @@ func intern(t *Term) *Term {
 		}
 		sort.Slice(t.vs, func(i, j int) bool { return t.vs[i].Name < t.vs[j].Name })
 	}
+	sh.mu.Lock()
+	defer sh.mu.Unlock()
+	if e, ok := sh.m[t.key]; ok {
+		return e
+	}
 	sh.m[t.key] = t
 	return t
 }
@@ -106,7 +113,15 @@ func intern(t *Term) *Term {
 func mkVar(name string, s Sort) *Term { return intern(&Term{Op: "var", Name: name, Sort: s}) }
 func mkStr(s string) *Term            { return intern(&Term{Op: "cs", S: s, Sort: SStr}) }
 func mkInt(i int64) *Term             { return intern(&Term{Op: "ci", I: i, Sort: SInt}) }
-func mkBool(b bool) *Term             { return intern(&Term{Op: "cb", B: b, Sort: SBool}) }
+func mkBool(b bool) *Term {
+	if tTrue != nil {
+		if b {
+			return tTrue
+		}
+		return tFalse
+	}
+	return intern(&Term{Op: "cb", B: b, Sort: SBool})
+}
 
 var tTrue, tFalse *Term
 
